@@ -83,6 +83,17 @@ def step_oracle(G, op, r, ob, oa, removed):
     for n in ('nosuchname', 'zz9'):
         if n not in scan and G.line(n) is not None:
             out.append(('lookup of an unused identifier returns a line', None, str(G.line(n))))
+    if op[0] == 'add' and r[0] == 'ok':
+        # an identifier carried by a line of another record type is in use: only U+U and O+O merge
+        f = op[1].split('\t')
+        n = GL.text_name(f) if f[0] in ('S', 'E', 'G', 'P', 'O', 'U') else None
+        if n not in (None, '*'):
+            for row in ob.split('\n'):
+                if row.startswith('L|0|'):
+                    g0 = row[4:].split('\t')
+                    if g0[0] in ('S', 'E', 'G', 'P', 'O', 'U') and g0[0] != f[0] and GL.text_name(g0) == n:
+                        out.append(('a %s line was accepted under the identifier %r carried by a %s line' % (f[0], n, g0[0]),
+                                    'NotUniqueError', 'accepted'))
     if op[0] == 'rename' and r[0] == 'ok' and op[1] != op[2]:
         # the line is found under the new identifier only, and the number of lines is unchanged
         if G.line(op[1]) is not None or (op[2] != '*' and G.line(op[2]) is None) or op[1] in G.names:
